@@ -123,6 +123,7 @@ class Prop:
     OUTSIDE = []            # what lies outside the claim
     BOUNDS = {'quick': '', 'thorough': ''}
     MAX_PATHS = 20000       # per shape; exceeding it is inconclusive, never success
+    SHAPE_SECONDS = 900     # wall-clock guard per shape; exceeding it is inconclusive, never success
     MUTANTS = {}            # name -> {module: (old, new)} for the sensitivity self-test
     LEVEL_TEXT = ''
     LEVEL_NOTE = ('trusted: z3, the symx value model (validated per path against the real code and on the '
@@ -263,7 +264,7 @@ def explore_shape(prop, SH, OR, shape, validate=True, max_paths=None):
             cinp = concretize(inp, wit)
             if res['sample'] is None:
                 res['sample'] = prop.sample(shape, cinp)
-            if validate:
+            if validate and not (hasattr(prop, 'skip_validation') and prop.skip_validation(shape, inp)):
                 with _quiet():
                     cobs = prop.execute(OR, shape, cinp)
                 sym_obs = norm(concretize(obs, wit))
@@ -297,8 +298,13 @@ def explore_shape(prop, SH, OR, shape, validate=True, max_paths=None):
         if res['paths'] >= max_paths:
             res['inconclusive'].append("path bound %d exceeded" % max_paths)
             break
-        if len(res['inconclusive']) > 20 or len(res['ces']) > 50:
-            res['inconclusive'].append("stopped early: too many inconclusive paths / counterexamples")
+        if len(res['inconclusive']) > 20:
+            res['inconclusive'].append("stopped early: too many inconclusive paths")
+            break
+        if len(res['ces']) >= 5:
+            break       # the verdict for this shape is settled: counterexamples found (they still have to replay)
+        if time.time() - t0 > prop.SHAPE_SECONDS:
+            res['inconclusive'].append("time bound %ds for one shape exceeded after %d paths" % (prop.SHAPE_SECONDS, res['paths']))
             break
     res['wall'] = time.time() - t0
     res['solver_s'] = eng.stats['solver_s']
@@ -312,11 +318,13 @@ def explore_shape(prop, SH, OR, shape, validate=True, max_paths=None):
     return res
 
 
-def replay_record(prop, OR, shape, cinp):
+def replay_record(prop, OR, shape, cinp, clause=None):
     """run the real code on a concrete input; return (violated clause names, obs)"""
     with _quiet():
         cobs = prop.execute(OR, shape, cinp)
     clauses = prop.oracle(shape, cinp, cobs)
+    if hasattr(prop, 'replay_extra'):
+        clauses = list(clauses) + list(prop.replay_extra(shape, cinp, clause))
     return eval_clauses(clauses), cobs
 
 
@@ -342,6 +350,7 @@ def _worker_init(prop_id, mutant):
                 return f
             mutate[mod] = mk()
     coverage_start()
+    symx.CROSS['every'] = int(os.environ.get('VERIF_CROSSCHECK', '0') or 0)
     SH = loader.load_shadow(prop.MODULES, mutate=mutate)
     OR = loader.load_orig(prop.MODULES)
     prop.setup_shadow(SH)
@@ -362,6 +371,8 @@ def _worker_run(task):
                    branches=0, forks=0, summary_paths=0)
     res['idx'] = idx
     res['cov'] = sorted(_COV)
+    res['cross'] = list(symx.CROSS['files'])
+    symx.CROSS['files'] = []
     return res
 
 
@@ -478,3 +489,34 @@ def translator_validation():
                 if r1 != r2:
                     bad.append((name, s, r1, r2))
     return n, bad
+
+
+# --------------------------------------------------------------------------
+# cross-solver re-decision of sampled assertion queries (thorough tier)
+# --------------------------------------------------------------------------
+def cross_check(files, limit=60, timeout=20):
+    """re-decide dumped queries with the z3 4.8.12 and cvc5 1.0 binaries; -> summary dict"""
+    import shutil
+    import subprocess
+    files = list(files)
+    step = max(1, len(files) // limit)
+    chosen = files[::step][:limit]
+    out = dict(dumped=len(files), redecided=len(chosen), agree_z3_4_8=0, agree_cvc5=0, unknown_or_error=0, disagreements=[])
+    solvers = [('z3_4_8', ['/usr/bin/z3', '-T:%d' % timeout]), ('cvc5', ['cvc5', '--tlimit=%d' % (timeout * 1000)])]
+    for path, verdict in chosen:
+        for name, cmd in solvers:
+            try:
+                p = subprocess.run(cmd + [path], stdout=subprocess.PIPE, stderr=subprocess.STDOUT, text=True, timeout=timeout + 10)
+                txt = p.stdout.strip()
+            except (subprocess.TimeoutExpired, OSError):
+                txt = 'timeout'
+            first = txt.splitlines()[0].strip() if txt else ''
+            if '(error' in txt or first not in ('sat', 'unsat'):
+                out['unknown_or_error'] += 1
+            elif first == verdict:
+                out['agree_' + name] += 1
+            else:
+                out['disagreements'].append(dict(solver=name, said=first, z3_5_1=verdict, query=open(path).read()[:2000]))
+    for d in {os.path.dirname(p) for p, _ in files}:
+        shutil.rmtree(d, ignore_errors=True)
+    return out
